@@ -148,7 +148,8 @@ def new_cov():
 def default_violation(ctx, finding_of=None):
     """finding_of(req, r) -> list of known-finding ids this failing scenario matches."""
     def on_violation(run, req, r):
-        fids = list(req.get("taint") or [])
+        # a known-finding signature counts when the specification's path has it or the recorded I/O of the real run has it
+        fids = list(req.get("taint") or []) + list(r.get("real_taint") or [])
         if finding_of:
             fids += finding_of(req, r)
         vlib.report_violation(ctx, dict(kind="store-replay", cfg=run.name, constants=run.stats.get("constants"), steps=req["steps"],
